@@ -21,6 +21,7 @@ abbrev Any := Int
 /-- an argument of a call of the environment, as the environment sees it -/
 inductive Arg
   | int (i : Int) | bytes (b : Bytes) | str (s : String)
+  | other      -- an argument passed on to the environment that the trace does not spell out (a request, a writer)
   deriving DecidableEq, Repr, Inhabited
 
 def Arg.toInt : Arg → Int
@@ -96,5 +97,20 @@ def enum (xs : List α) : List (Int × α) := (xs.zipIdx).map fun p => ((p.2 : I
 Go ranges over a map in an unspecified order; the list's order stands for whichever order the run took — a theorem that
 is to hold for the code must therefore not depend on it (the refinement theorems state where they do not) -/
 def forRangeRet (m : List (κ × ν)) (body : κ × ν → Option ρ) : Option ρ := m.findSome? body
+
+/-- how a loop body ended: go on with the next entry, leave the loop (`break`), leave the function (`return r`) -/
+inductive Ctl (ρ : Type)
+  | next | brk | ret (r : ρ)
+
+/-- `for k, v := range m { body }` with a body that may change state, `continue`, `break` and `return`: a left fold over
+the entries that threads the state and stops at the first `break` (the code after the loop runs) or `return` (it does not).
+For a map the list's order stands for whichever order the run took. -/
+def forRangeCtl {ρ : Type} : List (κ × ν) → (κ × ν → σ → Ctl ρ × σ) → σ → Ctl ρ × σ
+  | [], _, s => (Ctl.next, s)
+  | e :: rest, body, s =>
+    match body e s with
+    | (Ctl.next, s') => forRangeCtl rest body s'
+    | (Ctl.brk, s') => (Ctl.next, s')
+    | (Ctl.ret r, s') => (Ctl.ret r, s')
 
 end Flamego.GoSem
